@@ -73,7 +73,12 @@ func (srv *Server) Characteristics(w http.ResponseWriter, r *http.Request) {
 				aid := to.Uint64(ids[0]) // accessory id
 				iid := to.Uint64(ids[1]) // instance id (= characteristic id)
 				resp := CharacteristicResponse{AccessoryID: aid, CharacteristicID: iid}
-				if ch := srv.getCharacteristic(aid, iid); ch != nil {
+				if ch := srv.getCharacteristic(aid, iid); ch != nil && !ch.IsReadable() {
+					// a write-only characteristic has no value which could be returned
+					err = true
+					status := hap.StatusWriteOnlyCharacteristic
+					resp.Status = &status
+				} else if ch != nil {
 					resp.Value = ch.GetValueFromConnection(conn)
 				} else {
 					err = true
@@ -90,10 +95,10 @@ func (srv *Server) Characteristics(w http.ResponseWriter, r *http.Request) {
 		if err == true {
 			// Set 207 status when any of the response includes an error
 			w.WriteHeader(http.StatusMultiStatus)
-			for _, resp := range arr {
-				if resp.Status == nil {
+			for i := range arr {
+				if arr[i].Status == nil {
 					ok := 0
-					resp.Status = &ok // make sure that every response contains a status code (0 means OK)
+					arr[i].Status = &ok // make sure that every response contains a status code (0 means OK)
 				}
 			}
 		} else {
